@@ -23,6 +23,13 @@
 //	context:  the same pool presents a header at KES period start-1 and
 //	          start+maxEvolutions, and with a stake one lovelace below the
 //	          smallest stake whose threshold exceeds the leader value.
+//
+// Every ValidateHeader expectation is checked twice: on a fresh validator per
+// call, and as a validator HISTORY - one HeaderValidator instance first
+// validates the genuine header and genuine headers of two other pools, then
+// every tampering in PRNG order with genuine headers interleaved; what the
+// instance saw before must not change any verdict (keys
+// C40:ValidateHeader:history:...).
 package c40
 
 import (
@@ -48,7 +55,7 @@ import (
 func init() {
 	core.Register(&core.Monitor{
 		ID:            "C40",
-		Rule:          "PRNG pools (cold, VRF, KES depth-6 keys, opcert with random counter / start period), both modes, protocol majors 2..6 (TPraos) and 7..11 (CPraos), slotsPerKESPeriod 10..200000, maxKESEvolutions in {62,64,5..64}, evolution t in [0,maxEvo) biased to 0 and maxEvo-1, f in {1/20..19/20}, stakes random; slots searched inside the KES period until the pool leads (non-leading slots are the complementary outcome); bodies = segments of the corpus block of the era or empty; per header ~45 single-change tamperings (raw / re-signed / context); a case is one validation call; non-trivial = the genuine header validated; distinct by (header hash, tampering)",
+		Rule:          "PRNG pools (cold, VRF, KES depth-6 keys, opcert with random counter / start period), both modes, protocol majors 2..6 (TPraos) and 7..11 (CPraos), slotsPerKESPeriod 10..200000, maxKESEvolutions in {62,64,5..64}, evolution t in [0,maxEvo) biased to 0 and maxEvo-1, f in {1/20..19/20}, stakes random; slots searched inside the KES period until the pool leads (non-leading slots are the complementary outcome); bodies = segments of the corpus block of the era or empty; per header ~47 single-change tamperings (raw / re-signed / field-only / context), each judged on a fresh validator and again inside a history on one validator instance (genuine header + 2 genuine headers of other pools first, then all tamperings in PRNG order with genuine ones interleaved); a case is one validation call; non-trivial = the genuine header validated; distinct by (header hash, tampering)",
 		MinNontrivial: 1500,
 		Assumptions: []string{
 			"crypto/ed25519 and blake2b are correct; CertifiedNatThresholdWithMode is exact (C37) - it is used to find the stake boundary",
@@ -186,6 +193,8 @@ type scenario struct {
 	regHash  bool
 	hdr      *consensus.Header
 	id       string
+	// history mode: every ValidateHeader call goes to this one instance
+	hv *consensus.HeaderValidator
 }
 
 func (s *scenario) witness(name string, body *consensus.HeaderBody, sig []byte, extra map[string]any) map[string]any {
@@ -210,6 +219,7 @@ type ctxOverride struct {
 	prevBlockNo  *uint64
 	prevHashCtx  []byte
 	poolStake    *uint64
+	issuerField  []byte // ValidateHeaderInput.IssuerVkey only (header body untouched)
 	validatorCfg *consensus.NetworkConfig
 }
 
@@ -245,12 +255,19 @@ func (s *scenario) validate(b *consensus.HeaderBody, sig []byte, o *ctxOverride)
 		if o.poolStake != nil {
 			in.PoolStake = *o.poolStake
 		}
+		if o.issuerField != nil {
+			in.IssuerVkey = o.issuerField
+		}
 		if o.validatorCfg != nil {
 			cfg = *o.validatorCfg
 		}
 	}
 	panicked, pv, _ = core.Safely(func() {
-		res = consensus.NewHeaderValidatorWithMode(cfg, s.mode).ValidateHeader(in)
+		hv := s.hv
+		if hv == nil || (o != nil && o.validatorCfg != nil) {
+			hv = consensus.NewHeaderValidatorWithMode(cfg, s.mode)
+		}
+		res = hv.ValidateHeader(in)
 	})
 	s.c.Eval()
 	return
@@ -335,24 +352,33 @@ type tamper struct {
 
 func (s *scenario) judge(t tamper) {
 	c := s.c
-	c.Distinct(s.id, t.name)
-	c.Count("tamper_"+t.name, 1)
+	vh := "C40:ValidateHeader:"
+	if s.hv != nil {
+		// same expectations on a validator instance that has already seen other headers
+		vh = "C40:ValidateHeader:history:"
+		t.skipVB = true
+		c.Distinct(s.id, "history", t.name)
+		c.Count("history_validations", 1)
+	} else {
+		c.Distinct(s.id, t.name)
+		c.Count("tamper_"+t.name, 1)
+	}
 	if !t.skipVH {
 		res, p, pv := s.validate(t.body, t.sig, t.over)
 		switch {
 		case p:
-			c.Violation("C40:ValidateHeader:panic:"+t.name, fmt.Sprintf("ValidateHeader panicked: %v", pv), s.witness(t.name, t.body, t.sig, t.extraWit))
+			c.Violation(vh+"panic:"+t.name, fmt.Sprintf("ValidateHeader panicked: %v", pv), s.witness(t.name, t.body, t.sig, t.extraWit))
 		case res == nil:
 			c.Violation("C40:ValidateHeader:nil-result", "nil result", s.witness(t.name, t.body, t.sig, t.extraWit))
 		case t.either:
 			c.Count(fmt.Sprintf("vh_unprescribed_%s_valid=%v", t.name, res.Valid), 1)
 		case res.Valid && t.wantVH:
 			c.Count("vh_accepts_tampered", 1)
-			c.Violation("C40:ValidateHeader:accepts:"+t.name, fmt.Sprintf("ValidateHeader returned Valid for a header with tampering %q (%s)", t.name, s.modeName), s.witness(t.name, t.body, t.sig, t.extraWit))
+			c.Violation(vh+"accepts:"+t.name, fmt.Sprintf("ValidateHeader returned Valid for a header with tampering %q (%s)", t.name, s.modeName), s.witness(t.name, t.body, t.sig, t.extraWit))
 		case !res.Valid && len(res.Errors) == 0:
 			c.Violation("C40:ValidateHeader:invalid-without-error", "Valid=false with an empty error list", s.witness(t.name, t.body, t.sig, t.extraWit))
 		case !res.Valid && !t.wantVH:
-			c.Violation("C40:ValidateHeader:rejects-legitimate:"+t.name, fmt.Sprintf("ValidateHeader rejected a legitimate variant %q: %v", t.name, res.Errors), s.witness(t.name, t.body, t.sig, t.extraWit))
+			c.Violation(vh+"rejects-legitimate:"+t.name, fmt.Sprintf("ValidateHeader rejected a legitimate variant %q: %v", t.name, res.Errors), s.witness(t.name, t.body, t.sig, t.extraWit))
 		case res.Valid:
 			c.Count("vh_valid", 1)
 		default:
@@ -526,13 +552,25 @@ func oneHeader(c *core.Ctx, idx int, r *core.Rand, segsByType map[uint][][]byte)
 		c.Sample(map[string]any{"mode": s.modeName, "era": s.era, "slot": base.Slot, "f": s.f.String(), "kes_evolution": s.evo, "max_evolutions": s.maxEvo, "header_body_cbor": core.Hex(bodyNode(base, s.mode).Encode())})
 	}
 
-	for _, t := range s.tamperings(r) {
-		if t.segs == nil {
-			t.segs = s.segs
+	all := append(s.tamperings(r), s.contexts(r, major)...)
+	for i := range all {
+		if all[i].segs == nil {
+			all[i].segs = s.segs
 		}
+		// the chain context of the header each tampering was derived from
+		if all[i].over == nil {
+			all[i].over = prevOf(s.prevSlot)
+		} else if all[i].over.prevSlot == nil {
+			ps := s.prevSlot
+			all[i].over.prevSlot = &ps
+		}
+	}
+	// fresh validator per call
+	for _, t := range all {
 		s.judge(t)
 	}
-	s.contexts(r, major)
+	// one validator instance for the whole history
+	s.history(r, major, all)
 }
 
 func stageOr(s string) string {
@@ -749,6 +787,9 @@ func (s *scenario) tamperings(r *core.Rand) []tamper {
 		segs[si] = alt
 		out = append(out, tamper{name: fmt.Sprintf("body-segment-%d-changed", si), body: base, sig: sig, segs: segs, skipVH: true, wantVB: true})
 	}
+	// only the issuer key handed to the validator differs (header bytes untouched)
+	out = append(out, tamper{name: "field-only:issuer-vkey-other-pool", body: base, sig: sig, over: &ctxOverride{issuerField: cp(otherPool.coldPub)}, wantVH: true, skipVB: true})
+	out = append(out, tamper{name: "field-only:issuer-vkey-bit", body: base, sig: sig, over: &ctxOverride{issuerField: flipBit(base.IssuerVkey, r.Intn(256))}, wantVH: true, skipVB: true})
 	// chain context (header untouched, re-signing not needed)
 	{
 		ps := base.Slot
@@ -792,8 +833,11 @@ func altSegment(seg []byte, r *core.Rand) []byte {
 
 // contexts: the same pool at KES periods outside the certificate's window, and
 // with a stake just below what the VRF output needs.
-func (s *scenario) contexts(r *core.Rand, major uint64) {
+func (s *scenario) contexts(r *core.Rand, major uint64) []tamper {
 	c := s.c
+	var out []tamper
+	basePrev := s.prevSlot
+	defer func() { s.prevSlot = basePrev }()
 	base := &s.hdr.Body
 	// ---- stake boundary: smallest stake p* with threshold(p*) > leader value
 	lv := leaderValue(base.VrfOutput, s.mode)
@@ -816,8 +860,8 @@ func (s *scenario) contexts(r *core.Rand, major uint64) {
 		}
 		c.Count("stake_boundary_found", 1)
 		below, at := lo, hi
-		s.judge(tamper{name: "context:stake-just-below-threshold", body: base, sig: s.hdr.Signature, over: &ctxOverride{poolStake: &below}, wantVH: true, skipVB: true, extraWit: map[string]any{"presented_pool_stake": below}})
-		s.judge(tamper{name: "context-legit:stake-exactly-sufficient", body: base, sig: s.hdr.Signature, over: &ctxOverride{poolStake: &at}, wantVH: false, skipVB: true, extraWit: map[string]any{"presented_pool_stake": at}})
+		out = append(out, tamper{name: "context:stake-just-below-threshold", body: base, sig: s.hdr.Signature, over: &ctxOverride{poolStake: &below}, wantVH: true, skipVB: true, extraWit: map[string]any{"presented_pool_stake": below}})
+		out = append(out, tamper{name: "context-legit:stake-exactly-sufficient", body: base, sig: s.hdr.Signature, over: &ctxOverride{poolStake: &at}, wantVH: false, skipVB: true, extraWit: map[string]any{"presented_pool_stake": at}})
 	}
 	// ---- KES window. The signed slot fixes the period, so the pool produces
 	// another header in the period it wants to present.
@@ -828,7 +872,7 @@ func (s *scenario) contexts(r *core.Rand, major uint64) {
 		if k0, err := newKES(s.pool.kesSeed, 0); err == nil {
 			s.evo = 0
 			if hdr, _, ok := s.build(r, k0, s.start-1, major); ok {
-				s.judge(tamper{name: "context:kes-period-before-start", body: &hdr.Body, sig: hdr.Signature, segs: s.segs, wantVH: true, wantVB: true})
+				out = append(out, tamper{name: "context:kes-period-before-start", body: &hdr.Body, sig: hdr.Signature, segs: s.segs, over: prevOf(s.prevSlot), wantVH: true, wantVB: true})
 			}
 		}
 	}
@@ -838,13 +882,13 @@ func (s *scenario) contexts(r *core.Rand, major uint64) {
 		if k, err := newKES(s.pool.kesSeed, s.maxEvo); err == nil {
 			s.evo = s.maxEvo
 			if hdr, _, ok := s.build(r, k, s.start+s.maxEvo, major); ok {
-				s.judge(tamper{name: "context:kes-period-start+maxEvolutions", body: &hdr.Body, sig: hdr.Signature, segs: s.segs, wantVH: true, wantVB: false})
+				out = append(out, tamper{name: "context:kes-period-start+maxEvolutions", body: &hdr.Body, sig: hdr.Signature, segs: s.segs, over: prevOf(s.prevSlot), wantVH: true, wantVB: false})
 			}
 		}
 	} else if k, err := newKES(s.pool.kesSeed, 63); err == nil {
 		s.evo = 63
 		if hdr, _, ok := s.build(r, k, s.start+64, major); ok {
-			s.judge(tamper{name: "context:kes-period-start+maxEvolutions", body: &hdr.Body, sig: hdr.Signature, segs: s.segs, wantVH: true, wantVB: true})
+			out = append(out, tamper{name: "context:kes-period-start+maxEvolutions", body: &hdr.Body, sig: hdr.Signature, segs: s.segs, over: prevOf(s.prevSlot), wantVH: true, wantVB: true})
 		}
 	}
 	// legit boundary: last period of the window
@@ -852,8 +896,76 @@ func (s *scenario) contexts(r *core.Rand, major uint64) {
 		if k, err := newKES(s.pool.kesSeed, s.maxEvo-1); err == nil {
 			s.evo = s.maxEvo - 1
 			if hdr, _, ok := s.build(r, k, s.start+s.maxEvo-1, major); ok {
-				s.judge(tamper{name: "context-legit:kes-period-last-of-window", body: &hdr.Body, sig: hdr.Signature, segs: s.segs, wantVH: false, wantVB: false})
+				out = append(out, tamper{name: "context-legit:kes-period-last-of-window", body: &hdr.Body, sig: hdr.Signature, segs: s.segs, over: prevOf(s.prevSlot), wantVH: false, wantVB: false})
 			}
 		}
 	}
+	return out
+}
+
+func prevOf(ps uint64) *ctxOverride { return &ctxOverride{prevSlot: &ps} }
+
+// history replays the genuine header, genuine headers of other pools and
+// every tampering on ONE HeaderValidator instance: what the instance has seen
+// before must not change any verdict.
+func (s *scenario) history(r *core.Rand, major uint64, all []tamper) {
+	c := s.c
+	hv := consensus.NewHeaderValidatorWithMode(s.netcfg(), s.mode)
+	s.hv = hv
+	defer func() { s.hv = nil }()
+	genuine := []tamper{{name: "genuine", body: &s.hdr.Body, sig: s.hdr.Signature, over: prevOf(s.prevSlot)}}
+	type other struct {
+		sc *scenario
+		t  tamper
+	}
+	var others []other
+	for j := 0; j < 2; j++ { // other pools, other slots, same network
+		p2, err := newPool(r)
+		if err != nil {
+			continue
+		}
+		s2 := *s
+		s2.pool, s2.hv = p2, hv
+		s2.evo = uint64(r.Intn(int(s.maxEvo)))
+		k2, err := newKES(p2.kesSeed, s2.evo)
+		if err != nil {
+			continue
+		}
+		s2.signer = k2
+		if hdr, _, ok := s2.build(r, k2, s2.start+s2.evo, major); ok {
+			sc := s2
+			sc.hdr = hdr
+			others = append(others, other{&sc, tamper{name: "genuine-other-pool", body: &hdr.Body, sig: hdr.Signature, over: prevOf(sc.prevSlot)}})
+		}
+	}
+	revalidate := func() {
+		// a genuine header (own or another pool's) is valid whatever came before
+		if len(others) > 0 && r.Bool() {
+			o := core.Pick(r, others)
+			o.sc.judge(o.t)
+			return
+		}
+		s.judge(genuine[0])
+	}
+	// first the genuine ones (this is what fills any per-instance state) ...
+	s.judge(genuine[0])
+	for _, o := range others {
+		o.sc.judge(o.t)
+	}
+	// ... then every tampering in PRNG order, genuine headers interleaved
+	for n, i := range r.Perm(len(all)) {
+		t := all[i]
+		if t.skipVH {
+			continue
+		}
+		if t.over != nil && t.over.validatorCfg != nil {
+			continue
+		}
+		s.judge(t)
+		if n%3 == 2 {
+			revalidate()
+		}
+	}
+	revalidate()
+	c.Count("histories", 1)
 }
